@@ -19,6 +19,13 @@ FIX_COMMITS = ["536bdea", "2163003", "086d718", "eebbb00", "ae8746e", "813750d",
 NOT_YET = {}
 
 CFG = {
+    "C01": {
+        "cases": {"quick": 1600, "thorough": 160000},
+        "level_text": "Theorems (ℝ) about the generic polyline model (2-D and 3-D): cumulative lengths start at 0, are non-decreasing and end at the sum of edge lengths; at_length yields no station exactly outside [0,L]; the returned station reports length-along = l, its index/fraction reproduce its point by linear interpolation, direction unit and parallel to the edge. Model tied to the Rust by a differential run with the implementation's own vertices/lengths injected.",
+        "level_note": "Trusted: Lean kernel, Mathlib, hand-written model validated by the correspondence run (binary search modelled by its contract); rounding not analysed.",
+        "files": ["src/geom2/curve2.rs", "src/geom3/curve3.rs"],
+        "tol": {"*": 1e-9},
+    },
     "C12": {
         "cases": {"quick": 1600, "thorough": 160000},
         "level_text": "Theorems (pure combinatorics, for every list order = every hash-iteration order) about the model: edge table lists each undirected edge once with its count; boundary walk consumes every boundary edge exactly once and never runs out of fuel; flood fill (patches, voxel clusters) yields an exact partition within a linear fuel bound; box table closed/oriented (decide over the regenerated table), cylinder winding. Model tied to the Rust by exhaustive small face lists + random meshes on every check.",
